@@ -46,12 +46,13 @@ def modelLocs (era : String) (b : Bytes) : Option (List Loc) :=
 /-- (kind, era) pairs whose Go type has no byte-preserving MarshalCBOR today (known findings) -/
 def lossy (kind era : String) : Bool :=
   match kind with
-  -- blocks and headers: decided by the table regenerated from the Go source (GV.Gen.Preserve)
-  | "blk" => !GV.Model.PreserveTypes.preservesKind "blk" era
-  | "hdr" => !GV.Model.PreserveTypes.preservesKind "hdr" era
-  | "body" => era != "mary"
+  -- blocks, headers, bodies, witness sets: decided by two regenerated tables — the concrete Go
+  -- type of the decoded component (GV.Gen.G10bTypes, reflection on the running code) and
+  -- whether that type's MarshalCBOR returns the stored bytes (GV.Gen.Preserve, go/ast)
+  | "blk" | "hdr" | "body" | "wit" => GV.Model.PreserveTypes.lossyKind kind era
+  -- outputs: one transaction can carry outputs of several concrete types (legacy array /
+  -- map form, wrapped types); every era shows non-preserved outputs today
   | "out" => true
-  | "wit" => ["shelley", "allegra", "mary", "alonzo", "conway", "dijkstra"].contains era
   | _ => false
 
 /-- stored spans inside a standalone transaction `[body, witness set, (is_valid,) aux/null]`
